@@ -116,3 +116,49 @@ def _(self: Obj(SRKRecordBase, key_size=OneOf(*sorted(_SRK_PARAM_LEN)))) -> byte
 def _(cls: Const(SRKRecordBase), parameter_lengths: Bytes(lo=4, hi=8)) -> int:
     returns(parameter_lengths[0] + 256 * parameter_lengths[1] + parameter_lengths[2] + 256 * parameter_lengths[3], label="sum-of-the-two-le16-lengths")
     pure()
+
+
+# ---- signature block: the offsets of its parts never collide ----------------------------------------------------------------------------
+from spsdk.image.ahab.ahab_sign_block import SignatureBlock  # noqa: E402
+from specs.ahab import AbsPart  # noqa: E402
+
+inline("specs.ahab:AbsPart.__len__", "specs.ahab:AbsPart.update_fields")
+concrete_ok("spsdk.image.ahab.ahab_sign_block:SignatureBlock.format", "spsdk.image.ahab.ahab_abstract_interfaces:HeaderContainer.format",
+            "spsdk.image.ahab.ahab_abstract_interfaces:Container.format")
+PART = Optional[Obj(AbsPart, _g_len=Range(1, 1 << 16))]
+SIGBLK = Obj(SignatureBlock, srk_assets=PART, signature=PART, certificate=PART, blob=PART, _srk_assets_offset=int, _certificate_offset=int, _blob_offset=int,
+             signature_offset=int, length=int)
+
+
+def plen(p):
+    return p._g_len if p is not None else 0
+
+
+@contract("spsdk.image.ahab.ahab_sign_block:SignatureBlock.update_fields")
+def _(self: SIGBLK):
+    # parts in file order: header (16 bytes), SRK assets, signature, certificate, blob - each present part starts 8-byte aligned at or behind the
+    # end of the one before it, an absent part has offset 0, and the block length is the end of the last part
+    let(srk=plen(self.srk_assets), sig=plen(self.signature), crt=plen(self.certificate), blb=plen(self.blob))
+    ensures((self._srk_assets_offset == 0) == (srk == 0) and (self.signature_offset == 0) == (sig == 0) and (self._certificate_offset == 0) == (crt == 0)
+            and (self._blob_offset == 0) == (blb == 0), label="absent-parts-have-offset-zero")
+    ensures(self._srk_assets_offset % 8 == 0 and self.signature_offset % 8 == 0 and self._certificate_offset % 8 == 0 and self._blob_offset % 8 == 0,
+            label="offsets-are-8-byte-aligned")
+    ensures(implies(srk > 0, self._srk_assets_offset >= 16), label="srk-assets-behind-the-header")
+    ensures(implies(sig > 0, self.signature_offset >= 16 and self.signature_offset >= self._srk_assets_offset + srk), label="signature-behind-the-srk-assets")
+    ensures(implies(crt > 0, self._certificate_offset >= 16 and self._certificate_offset >= self._srk_assets_offset + srk
+                    and self._certificate_offset >= self.signature_offset + sig), label="certificate-behind-the-signature")
+    ensures(implies(blb > 0, self._blob_offset >= 16 and self._blob_offset >= self._srk_assets_offset + srk and self._blob_offset >= self.signature_offset + sig
+                    and self._blob_offset >= self._certificate_offset + crt), label="blob-behind-the-certificate")
+    ensures(self.length >= 16 and self.length >= self._srk_assets_offset + srk and self.length >= self.signature_offset + sig
+            and self.length >= self._certificate_offset + crt and self.length >= self._blob_offset + blb, label="block-length-covers-every-part")
+    modifies(self._srk_assets_offset, self.signature_offset, self._certificate_offset, self._blob_offset, self.length)
+    sample_with(lambda rnd: {"self": _mk_sigblk(rnd)})
+
+
+def _mk_sigblk(rnd):
+    b = object.__new__(SignatureBlock)
+    for name in ("srk_assets", "signature", "certificate", "blob"):
+        setattr(b, name, AbsPart(rnd.choice([1, 8, 68, 100, 512])) if rnd.random() < 0.6 else None)
+    b._srk_assets_offset = b._certificate_offset = b._blob_offset = b.signature_offset = 0
+    b.length = -1
+    return b
